@@ -212,6 +212,15 @@ def named_cases():
         c.append((fam_fmt, base, {"kind": "clean", "n": 120, "n0": 1, "corrupted": [], "exact_clause": True}))
         c.append((fam_fmt, [7], {"kind": "clean", "n": 1, "n0": 7, "corrupted": [], "exact_clause": True}))
         c.append((fam_fmt, base[50:] + base[:50], {"kind": "wrap", "n": 120, "n0": 1, "corrupted": []}))
+        # a wrapped pass (first number = last + 1) in which two neighbouring records are stored in the wrong order, and a
+        # very short one: the survivors keep FILE order, rotated so that the lowest number comes first - they are not sorted
+        w = base[50:] + base[:50]
+        w[10], w[11] = w[11], w[10]
+        c.append((fam_fmt, w, {"kind": "wrap", "n": 120, "n0": 1, "corrupted": []}))
+        w2 = base[50:] + base[:50]
+        w2[80], w2[81] = w2[81], w2[80]
+        c.append((fam_fmt, w2, {"kind": "wrap", "n": 120, "n0": 1, "corrupted": []}))
+        c.append((fam_fmt, [4, 2, 9, 3], {"kind": "wrap", "n": 4, "n0": 2, "corrupted": []}))
         c.append((fam_fmt, [0xFFFF, 0x8001] + base, {"kind": "garbage", "n": 122, "n0": 1, "corrupted": []}))
         z = list(base); z[0] = 301
         c.append((fam_fmt, z, {"kind": "first-corrupt", "n": 120, "n0": 1, "corrupted": [0], "exact_clause": True}))
